@@ -207,7 +207,26 @@ def c09_like_write_before_rename(ctx, r, must):
 
 
 def guarded_by_not_exists(ctx, site):
-    b = site.body
+    """Judged where the open is seen together with its guard: in its own body, or - when the open sits in a closure or
+    a helper that is handed the path - in the flat view of the function the closure / helper belongs to."""
+    if _guarded_in(ctx, site.body, site):
+        return True
+    roots = [ctx.scope_root(site.body)]
+    if site.body.is_closure:
+        # a closure handed to a generic helper: the view starts at the function that writes the closure
+        from ..prov import _closure_sites
+        for (pb, _bb, _rv) in _closure_sites(ctx.prog, site.body.path):
+            roots.append(pb)
+            roots.append(ctx.scope_root(pb))
+    for root in roots:
+        V = ctx.flat(root)
+        occ = [fs for fs in ctx.flat_sites_of(V, site) if fs.kind == "call" and not V.blocks[fs.bb].get("cleanup")]
+        if occ and all(_guarded_in(ctx, V, fs) for fs in occ):
+            return True
+    return False
+
+
+def _guarded_in(ctx, b, site):
     sl = Slicer(ctx.world, b)
     path_leaves = sl.leaves_of_operand(site.term["args"][0])
     for bb in b.normal_blocks():
